@@ -276,7 +276,7 @@ def setup_files(sc, root):
 def disk_text(path):
     """What a strict UTF-8 reader would get from the path right now (None if it cannot)."""
     try:
-        with open(os.path.realpath(path), 'rb') as f:
+        with open(path, 'rb') as f:  # as the operating system resolves it (no textual normalisation)
             return f.read().decode('utf-8')
     except (OSError, UnicodeDecodeError):
         return None
@@ -319,6 +319,15 @@ def run_once(sc, faults):
                 argv.append('spec.hpl')
             else:
                 argv.append(arg_path)
+        # the file the operating system designates for the argument (symbolic links followed first,
+        # `..` applied to where they lead): identity, not spelling
+        designated = None
+        if arg_path is not None:
+            try:
+                st = os.stat(arg_path)
+                designated = (st.st_dev, st.st_ino)
+            except OSError:
+                designated = None
         fs = simio.SimFS(root, faults.get('fs'))
         out_raw = simio.FaultyRaw('stdout', faults.get('stdout'))
         err_raw = simio.FaultyRaw('stderr', faults.get('stderr'))
@@ -380,7 +389,18 @@ def run_once(sc, faults):
         else:
             read_ok = any(c[1] == 'read' for c in fs.calls) and not any(
                 f[1] in ('read', 'open') and f[2]['kind'] == 'errno' for f in fs.fired)
-            if not read_ok:
+            o.designated = designated
+            o.opened_ids = list(fs.opened_ids)
+            if not fs.fired and not any(c[1] in ('read', 'open') for c in fs.calls):
+                # no file fault and the program never opened anything through the seam: the text it
+                # was given is the designated file's text, whether or not it got to it
+                o.delivered = disk_text(arg_path)
+            elif any(i != designated for i in fs.opened_ids):
+                # the program read some other file than the one the operating system designates for
+                # the argument: it is judged against the designated one (None if the OS cannot open it)
+                o.delivered = disk_text(arg_path)
+                o.wrong_file = True
+            elif not read_ok:
                 o.delivered = None
             else:
                 # strict UTF-8 decoding of the bytes on disk decides whether there is a text at all;
@@ -391,7 +411,8 @@ def run_once(sc, faults):
                 if d is not None and got is not None:
                     if isinstance(got, bytes):
                         try:
-                            got = got.decode('utf-8')
+                            # bytes of a text file: UTF-8, line ends in any of the three conventions
+                            got = got.decode('utf-8').replace('\r\n', '\n').replace('\r', '\n')
                         except UnicodeDecodeError:
                             got = None
                     d = got
@@ -898,9 +919,12 @@ def main(argv):
                'how_to_replay': '/venv/bin/python /verif/check.py C19 --replay <this file>'}
         path = core.write_replay(PROP, 'real_%s_%s' % (rv['real_case'], 'unbuffered' if rv['unbuffered'] else 'buffered'), doc)
         new.append((path, '%s: %s' % (rv['class'], rv['detail'])))
+    # the same check, other run indices, under other interpreter configurations (python -O)
+    slices = [] if args.digests else core.run_config_slices(PROP, args.tier, max(8, cfg['runs'] // 7), new, known_hits, harness_errors)
     wall = time.monotonic() - t0
     runs = stats.get('runs', 0)
     coverage = {
+        'interpreter_configuration_slices': slices,
         'evaluations': int(stats.get('process_runs', 0)),
         'distinct_nontrivial': int(distinct),
         'rule': 'cases = simulated process executions of hpl.cli.main (one fault-free + a single-fault sweep over every I/O call, write offset and sampled line event of that execution + seeded fault pairs); '
